@@ -57,6 +57,21 @@ CLAIMED = {
   note="Does not decide influxql.Statement.RequiredPrivileges, the JWT library, or flux authorization inside the reader. servePromRead is guarded by Config.PromReadAuthEnabled by design.",
   technique="static analysis: marked path exploration with outcome/branch facts, registry/case agreement, type rules on the cache entry",
   ref="§4 C16"),
+ "C10": dict(
+  text="Structural clauses of delete correctness: inside a delete, tombstones are committed on every overlapping file (the error of the parallel apply is checked) before the cache range is removed and before the WAL delete entry is written, and the index is touched only after the file walk and the cache walk that cross out surviving series; level, series-file and TSI compactions are disabled before the first deleteSeriesRange on every path and re-enabled by a deferred call, and enableLevelCompactions restarts compactions only when no delete still holds them; WAL replay handles every WALEntry implementation; the inclusive range-overlap predicates equal their specification on every ordering of their operands; lock pairing inside the delete's closures; FileStore.Apply reports an error if any file's function failed; the reconciliation pass examines every file so a series with points left in a non-overlapping file stays listed.",
+  note="Does not decide resurrection through a snapshot already in flight (a schedule property), exactness of Values.Exclude index arithmetic, or the tombstone file format.",
+  technique="static analysis: outcome/marker path exploration over go/cfg, registry agreement of the WAL entry family, exhaustive predicate evaluation over weak orderings, lock balance exploration",
+  ref="§9 C10"),
+ "C19": dict(
+  text="Structural necessary conditions of safe concurrent operation: every sync.Mutex/RWMutex acquisition in the anchored packages is released on every path before the function returns or covered by a deferred release (two intentional hand-offs are frozen rows with companion obligations); the lock-class graph 'M may be acquired while L is held' (with callee summaries) is acyclic; check-then-act under one lock for field creation (re-read after taking the mutex, existing type compared, update derived from the re-read map) and one hinted-handoff processor per queue; published metadata is immutable (clone completeness and value-snapshot rule shared with C07); variables captured by the coordinator's fan-out goroutines are written only under a mutex; connection-pool tokens are paired; cache snapshot, closed-segment list and segment roll happen in one critical section that excludes writers.",
+  note="Does not decide data-race freedom under every schedule (no sound alias analysis is available; locks are identified by access path and class), visibility of acknowledged writes to reads, or liveness.",
+  technique="static analysis: exact per-path lock balance exploration, lock-class order graph (Tarjan SCC) with callee summaries, outcome/def facts for check-then-act, held-lock sets at captured-variable writes",
+  ref="§9 C19"),
+ "C02": dict(
+  text="Only the rejection/typing clauses and two structural read-path conditions of C02: in validateSeriesAndFields a point whose validation failed is never kept and one whose validation succeeded is always kept (per loop iteration, every path), every rejection is counted and surfaces as a PartialWriteError; Shard.WritePointsWithContext hands the engine exactly the validated slice and returns the partial error after a successful engine write; a field flagged with a type conflict is never appended to the values written; field creation re-checks the type under its mutex; the cache's per-entry type tag distinguishes all five value types; the write-path value-type dispatch is exhaustive; Values.Deduplicate sorts stably; every block read by a KeyCursor is filtered with the tombstones of its own file.",
+  note="Does not decide that reads equal a last-write-wins model over all layouts (a statement about run-time values): merge arithmetic across cache/files/compactions is not decided.",
+  technique="static analysis: per-iteration marked path exploration with outcome facts, type-switch/value-switch exhaustiveness, call-shape rules on the read path",
+  ref="§9 C02"),
 }
 
 NA = {
